@@ -410,7 +410,50 @@ def c09(prog, rep):
     rep.assumptions += ['sequence behaviour over histories is not decided']
 
 
+PARSER_UNITS = ['src/utilities/qencode.c', 'src/internal/qinternal.c', 'src/extensions/qaconf.c', 'src/extensions/qconfig.c',
+                'src/utilities/qstring.c', 'src/containers/qlisttbl.c']
+
+
+def c17(prog, rep):
+    from . import cursor as CU, copy as C
+    CU.rule_cu1(prog, rep)
+    CU.rule_cu3(prog, rep, PARSER_UNITS)
+    C.rule_m1(prog, rep, ['src/utilities/qencode.c', 'src/extensions/qaconf.c', 'src/extensions/qconfig.c', 'src/internal/qinternal.c'])
+    rep.floor('CU1', 10)
+    rep.floor('CU3', 50)
+    rep.explanation = (
+        'CU1: abstract interpretation over each enumerated scan function (URL/Base64/hex decoders, query parser, word splitter, the '
+        'two tokeniser loops of the Apache-style parser, number/bool classifiers, INI line splitter and ${} scanner, list-table load) '
+        'in the safe-window domain: lo(p) = number of bytes after cursor p known (on this path) to precede the terminator, d(r,w) = '
+        'lower bound of the distance between read and write cursors, plus flag locals kept in the path state. Every dereference p[j] '
+        'needs j <= window(p); a cursor may reach one-past-the-terminator but not be dereferenced there or moved further; non-NUL '
+        'stores need j < window (in-place decoders never write ahead of the reader, never over the terminator). All paths of the CFG '
+        'are explored (finite capped state space: up to ~28k abstract steps for _parse_inline). CU3: definite-assignment (must) analysis '
+        'for every scalar/pointer local of the parser units, goto edges included. Not decided: termination (the ${} expansion loop\'s '
+        'progress is a runtime fact) and accesses outside the enumerated cursor idioms (computed indexes, strlen-based tails).')
+    rep.assumptions += ['string parameters listed in the site table are NUL-terminated', 'termination is not decided',
+                        'count-bounded index loops (i < n) and computed indexes are not analysed by CU1']
+
+
+def c19(prog, rep):
+    from . import index as IX, copy as C
+    IX.rule_q1(prog, rep)
+    C.rule_m1(prog, rep, ['src/utilities/qstring.c'])
+    rep.floor('Q1', 3)
+    rep.floor('M1', 3)
+    rep.explanation = (
+        'Q1: for the size-parameterised routines of qstring.c (qstrcpy, qstrncpy, qstrgets - found by their `char *dst, size_t size` '
+        'signature) every write into the destination is bounded: block copies and indexed stores need the must-fact len < size '
+        '(from the clamp `if (n >= size) n = size - 1`, facts derived from comparisons and from assignments), delegation must pass '
+        'dst and size unchanged to an already verified routine, and cursor writes must sit in a loop bounded by i < size - 1 in which the '
+        'cursor advances no faster than i. M1: in-place routines use overlap-safe copies. The functional clauses (what trim / replace / '
+        'tokenizer compute) and the output bound of qstrreplace are value computations and are not decided.')
+    rep.assumptions += ['functional equality with the documented string functions is not decided']
+
+
 PROPS = {
+    'C17': dict(fn=c17, level='other'),
+    'C19': dict(fn=c19, level='other'),
     'C09': dict(fn=c09, level='other'),
     'C08': dict(fn=c08, level='other'),
     'C20': dict(fn=c20, level='other'),
